@@ -307,6 +307,10 @@ func init() {
 		reg(p+"vUnwind", func(i *interpreter, fr *frame, fn *ssa.Function, a []value) value { i.ps.unwind = a[0].(int); return nil })
 		reg(p+"vConcCap", func(i *interpreter, fr *frame, fn *ssa.Function, a []value) value { i.ps.concCap = a[0].(int); return nil })
 		reg(p+"vPreempt", func(i *interpreter, fr *frame, fn *ssa.Function, a []value) value { i.ps.preempt = a[0].(int); return nil })
+		reg(p+"vSchedBlockFixed", func(i *interpreter, fr *frame, fn *ssa.Function, a []value) value {
+			i.ps.schedBlockFixed = a[0].(bool)
+			return nil
+		})
 		reg(p+"vSchedFixed", func(i *interpreter, fr *frame, fn *ssa.Function, a []value) value { i.ps.schedFixed = a[0].(bool); return nil })
 		reg(p+"vMapOrders", func(i *interpreter, fr *frame, fn *ssa.Function, a []value) value { i.ps.mapOrders = a[0].(bool); return nil })
 		reg(p+"vExpectPanic", func(i *interpreter, fr *frame, fn *ssa.Function, a []value) value { i.ps.expectPanic = a[0].(bool); return nil })
